@@ -16,11 +16,27 @@ from ..histcheck import conc, _uf_eval
 from ..framework import Run, parallel_map, cube_stats, run_native
 
 
-def sym_snapshot(L, inp, name, n, free_aggregates):
+def sym_snapshot(L, inp, name, n, free_aggregates, free_ids=False):
     P = inp.var(name + '.price', 64)
-    orders = [sym_order(L, inp, '%s.o%d' % (name, i), oid=const_order_id(i + 1), variants=[0, 1, 6]) for i in range(n)]
+    dom0 = []
+    if free_ids:
+        # ids are chosen per position (so the replacement may reorder, duplicate-free, the original orders)
+        idts = []
+        oids = []
+        for i in range(n):
+            t = S.bv(n, 128)
+            for j in range(n - 1, 0, -1):
+                t = S.Ite(inp.var('%s.o%d.id_is%d' % (name, i, j), S.B), S.bv(j, 128), t)
+            idts.append(t)
+            oids.append(EnumV(S.bv(0, 64), {0: (t,)}))
+        for i in range(n):
+            for j in range(i):
+                dom0.append(S.Not(S.Eq(idts[i], idts[j])))
+    else:
+        oids = [const_order_id(i + 1) for i in range(n)]
+    orders = [sym_order(L, inp, '%s.o%d' % (name, i), oid=oids[i], variants=[0, 1, 6]) for i in range(n)]
     m = S.ZExt(inp.var(name + '.len', 2), 64)
-    dom = [S.Ule(m, S.bv(n, 64))]
+    dom = dom0 + [S.Ule(m, S.bv(n, 64))]
     tot = S.bv(0, 70)
     for o in orders:
         v = OrderView(L, o)
@@ -50,7 +66,7 @@ def tamper(tier):
     st = State()
     assert L.structs['PriceLevelSnapshotPackage'] == ['version', 'snapshot', 'checksum']
     s1, d1, o1, m1 = sym_snapshot(L, inp, 's1', n, False)
-    s2, d2, o2, m2 = sym_snapshot(L, inp, 's2', n, True)
+    s2, d2, o2, m2 = sym_snapshot(L, inp, 's2', n, True, free_ids=True)
     r1, st, l1 = ex.call('PriceLevelSnapshotPackage::new', [s1], st)
     pkg = r1.payloads[0][0]
     ok1 = S.And(l1, S.Eq(r1.tag, S.bv(0, 64)))
